@@ -156,7 +156,7 @@ def handle_kind(self_ty):
         return "File"
     if s.startswith("tempfile::NamedTempFile"):
         return "NamedTempFile"
-    if s.startswith("std::io::Buf") or s.startswith("std::io::LineWriter"):
+    if s.startswith("std::io::Buf") or s.startswith("std::io::LineWriter") or re.match(r"^(async_std|tokio|futures)::io::Buf(Reader|Writer)", s):
         return "Buffered"
     if s.startswith("memmap2::MmapMut"):
         return "MmapMut"
@@ -337,6 +337,8 @@ class Inventory:
                 return self.classify(args[0], depth + 1)
             if np in ("std::ops::DerefMut::deref_mut", "std::ops::Deref::deref") and args:
                 return self.classify(args[0], depth + 1)
+            if re.search(r"::io::Buf(Reader|Writer)::<\w+>::(new|with_capacity)$", np) and args:
+                return self.classify(args[-1], depth + 1)
             if np in ("memmap2::MmapMut::map_mut",):
                 return ("Mmap", self.classify(args[0], depth + 1))
             if np in ("std::env::temp_dir", "std::env::current_dir", "std::env::home_dir"):
